@@ -659,7 +659,7 @@ func (r *reflCtx) checkInvariants(rule string) {
 // ruleP1: entry validation of the user function argument.
 func ruleP1(rule string) RuleFn {
 	return func(c *an.Ctx) {
-		c.Rule(rule, "P1 entry validation: in every exported method of Scope/Container whose first parameter is the user function (interface{}), that value is passed to a function of the dig module or to reflect.ValueOf only at sites dominated by reflect.TypeOf(x) != nil and reflect.TypeOf(x).Kind() == reflect.Func on it; passing it to fmt for the error message, to reflect.TypeOf, or delegating to the same-named method of Scope is allowed")
+		c.Rule(rule, "P1 entry validation: in every exported method of Scope/Container whose first parameter is the user function (interface{}), that value is passed to a function of the dig module or to reflect.ValueOf only at sites dominated by reflect.TypeOf(x) != nil and reflect.TypeOf(x).Kind() == reflect.Func on it, and by !reflect.ValueOf(x).IsNil() (a typed nil func passes the first two); passing it to fmt for the error message, to reflect.TypeOf, or delegating to the same-named method of Scope is allowed")
 		r := newReflCtx(c)
 		n := 0
 		for _, fn := range publicRoots(c) {
@@ -716,6 +716,16 @@ func ruleP1(rule string) RuleFn {
 				good, how := r.dynHasKind(fn, in, arg, []string{"Func"})
 				if good {
 					c.OK(rule, cons, how, in)
+					// a typed nil func value passes both checks above
+					nn := an.EdgesWhere(fn, an.FactIs("!reflect.ValueOf("+pn+").IsNil()", "(reflect.ValueOf("+pn+").Pointer() != 0)"))
+					cons2 := an.ShortName(fn) + ": user function reaches " + name + " only if it is not a nil function value"
+					if isNilProbe(in) {
+						// the ValueOf(x) that only feeds the IsNil/Pointer test itself
+					} else if dominated(fn, in, nn) {
+						c.OK(rule, cons2, "dominated by !reflect.ValueOf(f).IsNil()", in)
+					} else {
+						c.Bad(rule, cons2, "a typed nil function such as (func() int)(nil) has a non-nil type of kind Func and is accepted: its location is nil (runtime.FuncForPC(0)), which Visualize and the callback closures dereference, and executing it panics with 'call of nil function' instead of returning an error", in, nil)
+					}
 				} else {
 					c.Bad(rule, cons, "the value given by the user is handed to "+name+" without the untyped-nil and Kind()==Func checks that Provide and Invoke perform: nil or a non-function makes it panic instead of returning an error", in, nil)
 				}
@@ -723,4 +733,29 @@ func ruleP1(rule string) RuleFn {
 		}
 		c.Floor(rule, "public entry methods taking a user function", n, 6)
 	}
+}
+
+// isNilProbe: a reflect.ValueOf call whose result is used only as the
+// receiver of IsNil, Pointer, Kind or IsValid (the guard's own evaluation).
+func isNilProbe(in ssa.Instruction) bool {
+	k, ok := in.(*ssa.Call)
+	if !ok || an.CalleeName(k) != "reflect.ValueOf" {
+		return false
+	}
+	refs := an.Referrers(k)
+	if len(refs) == 0 {
+		return false
+	}
+	for _, r := range refs {
+		c, ok := r.(*ssa.Call)
+		if !ok {
+			return false
+		}
+		switch an.CalleeName(c) {
+		case "(reflect.Value).IsNil", "(reflect.Value).Pointer", "(reflect.Value).Kind", "(reflect.Value).IsValid":
+		default:
+			return false
+		}
+	}
+	return true
 }
